@@ -243,3 +243,110 @@ def regenerate_range_cmp(repo, coq_dir):
     if not out.exists() or out.read_text() != text:
         out.write_text(text)
     return status
+
+
+# ----------------------------------------------------------------------------- VersionRange.allows (version_range.py)
+# A second statement translator for a method whose blocks fall through: `if X is not None: <block>` followed by more statements,
+# conditional re-assignment of a local (`if c: x = f(x)`), `assert X is not None` (narrows X), early `return`.  The statements that
+# follow a block are translated once per path (the method has two blocks).
+A_ATTRS = dict(ATTRS, _min=("(rmin {o})", "optv"), _max=("(rmax {o})", "optv"), _include_min=("(imin {o})", "bool"), _include_max=("(imax {o})", "bool"))
+A_V_METHODS = dict(V_METHODS, without_postrelease=("without_postrelease {x}", "v"), without_local=("without_local {x}", "v"))
+def aexpr(e, env):
+    k = tkey(e)
+    if k in env: return env[k]
+    if isinstance(e, ast.Attribute) and isinstance(e.value, ast.Name) and e.value.id == "self" and e.attr in A_ATTRS:
+        g, t = A_ATTRS[e.attr]; return g.format(o="self"), t
+    if isinstance(e, ast.Call) and isinstance(e.func, ast.Attribute) and not e.keywords and not e.args:
+        recv, ty = aexpr(e.func.value, env)
+        if ty == "v" and e.func.attr in A_V_METHODS:
+            g, t = A_V_METHODS[e.func.attr]; return "(" + g.format(x=recv) + ")", t
+        raise Untranslatable("call " + k)
+    if isinstance(e, ast.UnaryOp) and isinstance(e.op, ast.Not):
+        a, t = aexpr(e.operand, env)
+        if t == "bool": return f"(negb {a})", "bool"
+    if isinstance(e, ast.BoolOp):
+        parts = [aexpr(x, env) for x in e.values]
+        if all(t == "bool" for _, t in parts):
+            return "(" + (" && " if isinstance(e.op, ast.And) else " || ").join(g for g, _ in parts) + ")", "bool"
+    if isinstance(e, ast.Compare) and len(e.ops) == 1:
+        a, ta = aexpr(e.left, env); b, tb = aexpr(e.comparators[0], env); op = e.ops[0]
+        if isinstance(op, (ast.Lt, ast.Gt)) and ta == tb == "v":
+            return f"({'vltb' if isinstance(op, ast.Lt) else 'vgtb'} {a} {b})", "bool"
+        if isinstance(op, ast.Eq) and ta in ("v", "optv") and tb in ("v", "optv"):
+            a2 = a if ta == "optv" else f"(Some {a})"; b2 = b if tb == "optv" else f"(Some {b})"
+            return f"(oveq {a2} {b2})", "bool"
+    if isinstance(e, ast.Constant) and e.value in (True, False): return ("true" if e.value else "false"), "bool"
+    raise Untranslatable("expression " + k)
+
+def is_not_none(test):
+    if isinstance(test, ast.Compare) and len(test.ops) == 1 and isinstance(test.ops[0], ast.IsNot) \
+            and isinstance(test.comparators[0], ast.Constant) and test.comparators[0].value is None:
+        return test.left
+    return None
+
+def aseq(stmts, env, fresh):
+    if not stmts: raise Untranslatable("falls off the end")
+    s, rest = stmts[0], stmts[1:]
+    if isinstance(s, ast.Expr) and isinstance(s.value, ast.Constant) and isinstance(s.value.value, str):
+        return aseq(rest, env, fresh)
+    if isinstance(s, ast.Return) and s.value is not None:
+        g, t = aexpr(s.value, env)
+        if t != "bool": raise Untranslatable("return type")
+        return g
+    if isinstance(s, ast.Assert):
+        x = is_not_none(s.test)
+        if x is None: raise Untranslatable("assert " + tkey(s.test))
+        g, t = aexpr(x, env)
+        if t == "v": return aseq(rest, env, fresh)
+        fresh[0] += 1; nm = f"v{fresh[0]}"; e2 = dict(env); e2[tkey(x)] = (nm, "v")
+        return f"match {g} with None => false | Some {nm} => {aseq(rest, e2, fresh)} end"       # None: the assertion would fail
+    if isinstance(s, ast.Assign) and len(s.targets) == 1:
+        tg = s.targets[0]
+        if isinstance(tg, ast.Tuple) and isinstance(s.value, ast.Tuple) and len(tg.elts) == len(s.value.elts) and all(isinstance(x, ast.Name) for x in tg.elts):
+            vals = [aexpr(v, env) for v in s.value.elts]; e2 = dict(env); out = ""
+            for n, (g, t) in zip(tg.elts, vals):
+                out += f"let {n.id} := {g} in "; e2[n.id] = (n.id, t)
+            return out + aseq(rest, e2, fresh)
+        if isinstance(tg, ast.Name):
+            g, t = aexpr(s.value, env); e2 = dict(env); e2[tg.id] = (tg.id, t)
+            return f"let {tg.id} := {g} in " + aseq(rest, e2, fresh)
+    if isinstance(s, ast.If) and not s.orelse:
+        x = is_not_none(s.test)
+        if x is not None:
+            g, t = aexpr(x, env)
+            if t != "optv": raise Untranslatable("None test on a non-optional " + tkey(x))
+            fresh[0] += 1; nm = f"v{fresh[0]}"; e2 = dict(env); e2[tkey(x)] = (nm, "v")
+            return f"match {g} with None => {aseq(rest, env, fresh)} | Some {nm} => {aseq(list(s.body) + rest, e2, fresh)} end"
+        c, t = aexpr(s.test, env)
+        if t != "bool": raise Untranslatable("condition " + tkey(s.test))
+        if len(s.body) == 1 and isinstance(s.body[0], ast.Return) and s.body[0].value is not None:
+            g, t2 = aexpr(s.body[0].value, env)
+            if t2 != "bool": raise Untranslatable("return type")
+            return f"if {c} then {g} else {aseq(rest, env, fresh)}"
+        if len(s.body) == 1 and isinstance(s.body[0], ast.Assign) and len(s.body[0].targets) == 1 and isinstance(s.body[0].targets[0], ast.Name) \
+                and s.body[0].targets[0].id in env:
+            n = s.body[0].targets[0].id; g, t2 = aexpr(s.body[0].value, env)
+            if t2 != env[n][1]: raise Untranslatable("re-assignment changes the type of " + n)
+            return f"let {n} := if {c} then {g} else {env[n][0]} in " + aseq(rest, env, fresh)
+    raise Untranslatable(ast.dump(s)[:200])
+
+def regenerate_range_allows(repo, coq_dir):
+    """Writes coq/Gen/RangeAllows.v from VersionRange.allows; returns (status, detail)."""
+    out = pathlib.Path(coq_dir) / "Gen" / "RangeAllows.v"
+    src = pathlib.Path(repo) / "src/poetry/core/constraints/version/version_range.py"
+    header = ("(* GENERATED on every run from /repo by harness/translate/py2coq.py - do not edit *)\nFrom Coq Require Import Bool.\n"
+              "From PC Require Import Model.Pep440 Model.VConstraint Gen.RangeCmp.\n")
+    try:
+        tree = ast.parse(src.read_text())
+        cls = next(n for n in tree.body if isinstance(n, ast.ClassDef) and n.name == "VersionRange")
+        node = next(n for n in cls.body if isinstance(n, ast.FunctionDef) and n.name == "allows")
+        if [a.arg for a in node.args.args] != ["self", "other"] or node.args.vararg or node.args.kwarg or node.args.kwonlyargs or node.args.defaults:
+            raise Untranslatable("signature of allows")
+        body = aseq(node.body, {"self": ("self", "rng"), "other": ("other", "v")}, [0])
+        text = header + f"Definition rr_allows_gen (self : rng) (other : version) : bool :=\n  {body}.\n"; status = ("ok", "")
+    except (Untranslatable, StopIteration, SyntaxError, OSError) as e:
+        text = header + ("(* VersionRange.allows: source no longer fits the translated subset: " + str(e).replace("*)", "* )").replace("(*", "( *")[:300] + " *)\n"
+                         "Definition rr_allows_gen := rr_allows.\n"); status = ("untranslatable", str(e))
+    if not out.exists() or out.read_text() != text:
+        out.write_text(text)
+    return status
